@@ -22,7 +22,8 @@ TECHNIQUE = 'bounded-exhaustive enumeration of a hostile type alphabet x binding
 RULE = ('values = the listed alphabet of built-in/exotic/hostile values (no __dict__, non-str keys, raising str/repr/len/getattr/__dict__, '
         'generators, iterators, coroutines, cycles, invalid UTF-8, lone surrogates ...); sites = local / watch / return / exception; '
         'k = 1..3 snapshot tracepoints on the event; plus all graphs of the C05 family with k=2,3; every case is non-trivial when the '
-        'value is not a plain scalar or k>1')
+        'value is not a plain scalar or k>1'
+        ' ; values also: raising __getattribute__, dead weakref.proxy, Exceptions with non-tuple / raising args, Mock(spec=...), application classes named like containers, a value whose rendering takes 150 ms of the harness clock')
 ASSUMPTIONS = ['dunder methods raise Exception subclasses (non-Exception BaseExceptions belong to C01)',
                'the placeholder text for an offending value is a don\'t-care; it must have an entry and the snapshot must be delivered']
 
